@@ -535,7 +535,21 @@ func (s *Sim) startNode(n *simNode) error {
 			case <-t.C:
 				buf := make([]byte, 4<<20)
 				k := runtime.Stack(buf, true)
-				fmt.Fprintf(realStderr, "panic: SETUP-WEDGED: the start-up of n%d (Server.setup: wiring and replay of its log) did not return within 600 simulated seconds\n\n%s\n", idx, buf[:k])
+				// the blocked goroutines of the product first, the marker last (the parent keeps the tail)
+				var blocked []string
+				for _, g := range strings.Split(string(buf[:k]), "\n\n") {
+					if strings.Contains(g, "github.com/marekgalovic/anndb/storage") && !strings.Contains(g, "anndbverif.(*Sim).park") {
+						lines := strings.Split(g, "\n")
+						if len(lines) > 9 {
+							lines = lines[:9]
+						}
+						blocked = append(blocked, strings.Join(lines, "\n"))
+					}
+					if len(blocked) >= 8 {
+						break
+					}
+				}
+				fmt.Fprintf(realStderr, "%s\n\npanic: SETUP-WEDGED: the start-up of n%d (Server.setup: wiring and replay of its log) did not return within 600 simulated seconds\n", strings.Join(blocked, "\n\n"), idx)
 				os.Exit(3)
 			}
 		}()
